@@ -304,8 +304,10 @@ def _lattice_trace(arg):
     sd, L, chains, grid, closed = arg
     bundle = [1, 2, 3, 4, 5, 6] * 14
     # accepted molecules never move, so a dense lattice can become infeasible for the remaining ones: time limit, no verdict
+    signal.signal(signal.SIGPROF, _alarm)
+    signal.setitimer(signal.ITIMER_PROF, 25, 5)     # CPU time of this process: the limit does not depend on the load of the machine
     signal.signal(signal.SIGALRM, _alarm)
-    signal.setitimer(signal.ITIMER_REAL, 25, 5)
+    signal.setitimer(signal.ITIMER_REAL, 300, 5)     # wall-clock safety net
     try:
         evs, pos, err = lattice_run(L, chains, grid, bundle, 80, None, seed=sd, closed=closed)
     except _Timeout:
@@ -313,6 +315,7 @@ def _lattice_trace(arg):
     except Exception as exc:
         return {"machinery": "%s: %s" % (type(exc).__name__, exc)}
     finally:
+        signal.setitimer(signal.ITIMER_PROF, 0)
         signal.setitimer(signal.ITIMER_REAL, 0)
     return {"evs": evs, "err": err}
 
@@ -446,8 +449,10 @@ def _real_run(arg):
     from polyply import gen_coords
     np.random.seed(sd)
     random.seed(sd)
+    signal.signal(signal.SIGPROF, _alarm)
+    signal.setitimer(signal.ITIMER_PROF, 150, 5)     # CPU time of this process: the limit does not depend on the load of the machine
     signal.signal(signal.SIGALRM, _alarm)
-    signal.setitimer(signal.ITIMER_REAL, 150, 5)
+    signal.setitimer(signal.ITIMER_REAL, 1800, 5)     # wall-clock safety net
     holder = {}
     try:
         with tempfile.TemporaryDirectory(prefix="verif_c05_", dir="/var/tmp") as wd:
@@ -532,6 +537,7 @@ def _real_run(arg):
     except _Timeout:
         return {"noverdict": "timeout"}
     finally:
+        signal.setitimer(signal.ITIMER_PROF, 0)
         signal.setitimer(signal.ITIMER_REAL, 0)
 
 
